@@ -35,6 +35,9 @@ type c09world struct {
 }
 
 const c09Password = "c09-password-Pa55"
+
+// the client principal has two name components, so that a name can also deviate in how its components are grouped
+const c09User = "alice/c09"
 const c09FarRealm, c09FarSPN = "FAR.C09.TEST.GOKRB5", "HTTP/svc.far.example"
 
 func newC09World(et int32, noaddr bool, origin time.Time, preauth bool) (*c09world, error) {
@@ -45,7 +48,7 @@ func newC09World(et int32, noaddr bool, origin time.Time, preauth bool) (*c09wor
 	if _, err := k.addPrincipal(realm, "krbtgt/"+realm, "krbtgt-secret", []int32{18, 17, 23, 16, 19, 20}); err != nil {
 		return nil, err
 	}
-	if _, err := k.addPrincipal(realm, "alice", c09Password, all); err != nil {
+	if _, err := k.addPrincipal(realm, c09User, c09Password, all); err != nil {
 		return nil, err
 	}
 	if _, err := k.addPrincipal(realm, "HTTP/svc.c09.test", "svc-secret", []int32{18, 17, 23, 16, 19, 20}); err != nil {
@@ -73,7 +76,7 @@ func newC09World(et int32, noaddr bool, origin time.Time, preauth bool) (*c09wor
 		return nil, err
 	}
 	kt := keytab.New()
-	if err := kt.AddEntry("alice", realm, c09Password, time.Now(), 1, et); err != nil {
+	if err := kt.AddEntry(c09User, realm, c09Password, time.Now(), 1, et); err != nil {
 		return nil, err
 	}
 	return &c09world{kdc: k, cfg: cfg, realm: realm, et: et, kt: kt}, nil
@@ -81,13 +84,13 @@ func newC09World(et int32, noaddr bool, origin time.Time, preauth bool) (*c09wor
 
 func (w *c09world) newClient(cred string) *client.Client {
 	if cred == "keytab" {
-		return client.NewWithKeytab("alice", w.realm, w.kt, w.cfg, client.DisablePAFXFAST(true))
+		return client.NewWithKeytab(c09User, w.realm, w.kt, w.cfg, client.DisablePAFXFAST(true))
 	}
-	return client.NewWithPassword("alice", w.realm, c09Password, w.cfg, client.DisablePAFXFAST(true))
+	return client.NewWithPassword(c09User, w.realm, c09Password, w.cfg, client.DisablePAFXFAST(true))
 }
 
 func (w *c09world) creds(cred string) *credentials.Credentials {
-	c := credentials.New("alice", w.realm)
+	c := credentials.New(c09User, w.realm)
 	if cred == "keytab" {
 		return c.WithKeytab(w.kt)
 	}
